@@ -324,7 +324,9 @@ func mutate(rnd *hlib.Rand, c *chain, g *Group, last Asg, good bool) string {
 		if len(g.Members) >= 2 {
 			i, j := rnd.Intn(len(g.Members)), rnd.Intn(len(g.Members))
 			if i != j {
-				g.Members[i].UD.Parts = append(g.Members[i].UD.Parts, g.Members[j].UD.Parts...)
+				if g.Members[i].UD.Kind != "-" { // a member without user data claims nothing
+					g.Members[i].UD.Parts = append(g.Members[i].UD.Parts, g.Members[j].UD.Parts...)
+				}
 			}
 		}
 		return "other"
@@ -336,7 +338,9 @@ func mutate(rnd *hlib.Rand, c *chain, g *Group, last Asg, good bool) string {
 		case 1:
 			g.Members[i].UD = UserData{Kind: "-"}
 		case 2:
-			g.Members[i].UD.Parts = append(g.Members[i].UD.Parts, g.Members[i].UD.Parts...)
+			if g.Members[i].UD.Kind != "-" {
+				g.Members[i].UD.Parts = append(g.Members[i].UD.Parts, g.Members[i].UD.Parts...)
+			}
 		}
 		return "other"
 	case 14: // several changes at once
